@@ -764,7 +764,11 @@ MessageReceivedFromGateway(const MessageRef & msgRef, void * userData)
                if (copyField) (void) msg.CopyName(fn, _parameters);
             }
             if (updateDefaultMessageRoute) UpdateDefaultMessageRoute();
-            if (getMsg.HasName(PR_NAME_KEYS)) DoGetData(getMsg);  // return any data that matches the subscription
+            if (getMsg.HasName(PR_NAME_KEYS))
+            {
+               PushSubscriptionMessages();  // so that removals caused by the filter-changes above can't undo the initial values sent below
+               DoGetData(getMsg);  // return any data that matches the subscription
+            }
          }
          break;
 
